@@ -106,7 +106,7 @@ inductive Outcome where
   | dangling
   /-- `ACLDomainData::parse` refuses the value (only in trees that check for two leading dots: `Gen.DomainFold.rejectsMultiDot`) -/
   | rejected
-  /-- model artefact: loop budget exhausted (shown unreachable: every `continue` follows a successful removal) -/
+  /-- model artefact: loop budget exhausted (shown unreachable for admitted values: every `continue` follows a successful removal) -/
   | fuel
   deriving DecidableEq, Repr
 
@@ -124,7 +124,7 @@ def mergeLoop : Nat → Tree Bytes → Bytes → List Event → Outcome
         | (_, false) => .dangling
       else .assure
 
-/-- `Merge(storage, newItem)`; `size + 1` rounds are enough (theorem `merge_fuel_enough`) -/
+/-- `Merge(storage, newItem)`; `size + 1` rounds are enough (`mergeLoop_spec`, `C41.parse_ok`: the outcome is never `fuel` for admitted values) -/
 def merge (t : Tree Bytes) (new : Bytes) (ev : List Event) : Outcome :=
   mergeLoop (t.size + 1) t new ev
 
